@@ -11,7 +11,7 @@ Conventions (the code's, not what it should do):
   index in `State.handles`;
 * the mux maps `connsIPv4/connsIPv6[ufrag][local IP]` hold exactly the packet connections that are not
   closed: every path that closes a packet connection also removes it from the maps before the
-  goroutines come to rest (its watcher does), and every path that removes one closes it;
+  goroutines come to rest (its watcher does, by identity since fix F22), and every path that removes one closes it;
 * frames are units (`IceModel/Framing.lean`, property C14, is about the bytes); a frame carries what the
   first-frame classifier looks at: its length, and whether it decodes as STUN / is a Binding / has a USERNAME;
 * times are in the unit of the harness (ms); peer IP ids `0,1` are IPv4, `2,3` IPv6.
@@ -227,17 +227,10 @@ def closePc1 (s : State) (p : Nat) : State :=
       pcs := s.pcs.modify p (fun pc => { pc with closed := true, alive := none, conns := [], blockedQ := [] }) }
 
 /-- `tcpPacketConn.Close` followed by the close watcher of the mux (`removeConnByUfragAndLocalHost`):
-the watcher deletes the entry under (ufrag, local IP) from BOTH family maps and closes what it deleted,
-so the packet connection of the other family with the same ufrag and local IP string is closed too. -/
-def closePc (s : State) (p : Nat) : State :=
-  match s.pcs[p]? with
-  | none => s
-  | some pc =>
-    if pc.closed then s else
-    let s1 := closePc1 s p
-    match findPc s1.pcs { pc.key with v6 := !pc.key.v6 } with
-    | some q => closePc1 s1 q
-    | none => s1
+the watcher deletes the map entry under (ufrag, local IP) only if it still IS this packet connection
+(fix F22), so — operations being atomic here — closing is all that happens. Before F22 the watcher
+removed by key in BOTH family maps and closed what it found there (observation O1 in notes/C15.md). -/
+def closePc (s : State) (p : Nat) : State := closePc1 s p
 
 /-- close every open packet connection satisfying `sel` (in index order) -/
 def closePcsWhere (sel : PConn → Bool) (s : State) : State :=
